@@ -222,9 +222,9 @@ pub fn gen_head(rng: &mut Rng) -> (String, Vec<u8>) {
             let zeros = match rng.below(5) { 0 => rng.range(1, 4) as usize, 1 => rng.range(15, 40) as usize, _ => 0 };
             (rng.pick(&[&b"Content-Length"[..], b"content-length", b"CONTENT-LENGTH"]).to_vec(), format!("{}{}{}", "0".repeat(zeros), n, ["", " ", "\t"][rng.below(3) as usize]).into_bytes())
         } else if special == 1 {
-            (b"Transfer-Encoding".to_vec(), rng.pick(&[&b"chunked"[..], b"gzip, chunked", b"Chunked ", b"gzip"]).to_vec())
+            (b"Transfer-Encoding".to_vec(), rng.pick(&[&b"chunked"[..], b"gzip, chunked", b"Chunked ", b"gzip", b"CHUNKED", b"chunked\t", b"gzip ,  ,chunked", b"gzip, ", b",chunked", b"chunked,", b"gzip,\t", b" ,", b",", b"x,  ,  ,y"]).to_vec())
         } else if special == 2 {
-            (b"Connection".to_vec(), rng.pick(&[&b"close"[..], b"keep-alive", b"keep-alive, Close ", b"upgrade"]).to_vec())
+            (b"Connection".to_vec(), rng.pick(&[&b"close"[..], b"keep-alive", b"keep-alive, Close ", b"upgrade", b"keep-alive, ", b"close ", b"close\t", b", close", b"keep-alive ,  , close", b",", b" , ", b"a,\t,b", b"CLOSE"]).to_vec())
         } else {
             let nl = *rng.pick(&[1usize, 2, 7, 8, 9, 16]); let vl = *rng.pick(LENS);
             let mut v: Vec<u8> = Vec::new();
